@@ -25,14 +25,15 @@ def DevState.stuck : DevState → Bool
   | .signing [] _ _ => true
   | _ => false
 
-/-- the documented transitions (plus no-ops) -/
+/-- the documented transitions (plus no-ops): a request is answered by a prepared response
+(Signing) or, when there is nothing to sign (error response, nothing to return), by a response
+that is ready at once; signatures are attached one by one; the completed response is retrieved -/
 inductive Documented : DevState → DevState → Prop
   | refl (s) : Documented s s
-  | prepare (s p) : Documented s (.signing p [] 0)                       -- prepare_response
-  | malformed (s st) : Documented s (.signing [] [] st)                  -- error response prepared
+  | prepare (s p) : p ≠ [] → Documented s (.signing p [] 0)
+  | respondNow (s m) : Documented s (.ready m)
   | sign (p s st d sig) : p.getLast? = some d → p.dropLast ≠ [] →
       Documented (.signing p s st) (.signing p.dropLast (s ++ [(d, sig)]) st)
-  | complete (p s st m) : p.dropLast = [] → Documented (.signing p s st) (.ready m)
   | retrieve (m) : Documented (.ready m) .awaiting
 
 end IsoMdl.Session
@@ -53,8 +54,10 @@ def retrieveOk (got : Option Msg) (before after : DevState) : Bool :=
   | .ready m => got == some m && after == .awaiting
   | _ => got == none && after == before
 
+/-- after a decryptable request that is not a valid DeviceRequest: a response with status 11 or
+12 and no document is ready to be retrieved -/
 def malformedOk : DevState → Bool
-  | .signing [] [] st => st == 11 || st == 12
+  | .ready (.ct false _ _ (.response st []) false) => st == 11 || st == 12
   | _ => false
 
 /-- `offered` is what get_next_signature_payload showed before the call -/
@@ -66,11 +69,7 @@ def submitOk (before after : DevState) (offered : Option Nat) (sig : Nat) : Bool
       | .ready (.ct false _ _ (.response st' signed) false) => st' == st && signed == s ++ [(d, sig)]
       | _ => false
     else after == .signing p.dropLast (s ++ [(d, sig)]) st
-  | .signing [] s st, none =>
-    match after with
-    | .ready (.ct false _ _ (.response st' signed) false) => st' == st && signed == s
-    | _ => false
-  | .signing .., none => false
+  | .signing .., none => false        -- a Signing state always offers a payload
   | b, _ => after == b
 
 end IsoMdl.Session
